@@ -280,7 +280,7 @@ def run_check(src, prop, runs):
     env = dict(os.environ)
     env["VERIF_REPO_SRC"] = src
     p = subprocess.run([os.path.join(VERIF, "check"), "run", prop, "--runs", str(runs),
-                        "--no-evidence"], cwd=VERIF, env=env, capture_output=True, text=True,
+                        "--no-evidence", "--no-optimized-pass"], cwd=VERIF, env=env, capture_output=True, text=True,
                        timeout=1800)
     lines = [l for l in p.stdout.splitlines() if l.startswith("VIOLATION")
              or l.strip().startswith("check=")]
